@@ -89,6 +89,7 @@ class MatrixOperator(LinearOperator):
             raise TypeError(f"Expected a two-dimensional array, got array of shape {A.shape}.")
 
         self.__array__ = A.__array__  # enables jnp.array(H)
+        self.input_cols = input_cols
 
         if input_cols == 0:
             input_shape = A.shape[1]
@@ -217,7 +218,7 @@ class MatrixOperator(LinearOperator):
         Return a :class:`.MatrixOperator` corresponding to the transpose
         of this matrix.
         """
-        return MatrixOperator(self.A.T)
+        return MatrixOperator(self.A.T, input_cols=self.input_cols)
 
     @property
     def H(self):
@@ -226,7 +227,7 @@ class MatrixOperator(LinearOperator):
         Return a :class:`.MatrixOperator` corresponding to the Hermitian
         (conjugate) transpose of this matrix.
         """
-        return MatrixOperator(self.A.conj().T)
+        return MatrixOperator(self.A.conj().T, input_cols=self.input_cols)
 
     def conj(self):
         """Complex conjugate of this :class:`.MatrixOperator`.
@@ -234,7 +235,7 @@ class MatrixOperator(LinearOperator):
         Return a :class:`.MatrixOperator` with complex conjugated
         elements.
         """
-        return MatrixOperator(A=self.A.conj())
+        return MatrixOperator(A=self.A.conj(), input_cols=self.input_cols)
 
     def adj(self, y):
         return self.A.conj().T @ y
@@ -249,7 +250,7 @@ class MatrixOperator(LinearOperator):
 
         Return a new :class:`.LinearOperator` `G` such that
         `G(x) = A.adj(A(x)))`."""
-        return MatrixOperator(A=self.A.conj().T @ self.A)
+        return MatrixOperator(A=self.A.conj().T @ self.A, input_cols=self.input_cols)
 
     def norm(self, ord=None, axis=None, keepdims=False):  # pylint: disable=W0622
         """Compute the norm of the dense matrix `self.A`.
